@@ -380,7 +380,9 @@ func vGenTokens(r *vRand, c *vCfg, names []string) []vTok {
 			ts = append(ts, vTok{0, vGenLit(r, 1+r.Intn(3), true)})
 			continue
 		}
-		switch r.Pick(30, 18, 8, 44) {
+		switch r.Pick(26, 14, 8, 40, 12) {
+		case 4: // an escaped reference: "$$" then the literal text "{name}"
+			ts = append(ts, vTok{1, "$$"}, vTok{0, "{env:" + names[r.Intn(len(names))] + "}"})
 		case 0:
 			ts = append(ts, vTok{0, vGenLit(r, 1+r.Intn(5), false)})
 		case 1:
@@ -415,6 +417,7 @@ func vTokString(ts []vTok) string {
 func vTokSem(ts []vTok, c *vCfg) (string, bool) {
 	var sb strings.Builder
 	hasText := false
+	heavyRefs := 0
 	for _, t := range ts {
 		switch t.kind {
 		case 0:
@@ -429,14 +432,18 @@ func vTokSem(ts []vTok, c *vCfg) (string, bool) {
 				key = c.def + ":" + key
 			}
 			e := c.tbl[key]
-			if e.hasStr {
-				sb.WriteString(e.str)
-			} else {
-				sb.WriteString(e.raw.(string))
+			v := e.str
+			if !e.hasStr {
+				v = e.raw.(string)
+			}
+			sb.WriteString(v)
+			if v != "" {
+				heavyRefs++
 			}
 		}
 	}
-	return sb.String(), hasText
+	// "anchored": the string can never shrink to ONE bare reference (which would make the value typed)
+	return sb.String(), hasText || heavyRefs >= 2
 }
 
 // ---- family 2: wild strings -----------------------------------------------------------------------------
@@ -452,7 +459,7 @@ func vChunk(r *vRand, n int) string {
 
 // names of provider entries by level (a value of level k only references lower levels)
 var vLevelNames = [][]string{
-	{"A", "B", "N", "F", "T", "NIL", "M", "M2", "L", "S", "Q", "DOL", "ESC", "OB", "CL", "P", "ERR", "ZZ", "EMP"},
+	{"A", "B", "N", "F", "T", "NIL", "M", "M2", "L", "S", "Q", "DOL", "ESC", "OB", "CL", "P", "EMP", "W", "LW", "A", "B", "N", "A", "B", "S", "EMP", "ESC", "ERR", "ZZ"},
 	{"R1", "R1b", "MR"},
 	{"R2"},
 }
@@ -461,7 +468,7 @@ func vGenName(r *vRand, c *vCfg, level int, st map[string]int) string {
 	var opaque string
 	lv := r.Intn(level)
 	opaque = vLevelNames[lv][r.Intn(len(vLevelNames[lv]))]
-	switch r.Pick(80, 4, 4, 4, 4, 4) {
+	switch r.Pick(88, 2, 4, 1, 3, 2) {
 	case 1:
 		opaque += "$"
 		st["name-with-dollar"]++
@@ -480,7 +487,7 @@ func vGenName(r *vRand, c *vCfg, level int, st map[string]int) string {
 	case 5:
 		opaque = "a:b"
 	}
-	switch r.Pick(55, 25, 6, 5, 3, 3, 3) {
+	switch r.Pick(60, 28, 6, 2, 1, 1, 2) {
 	case 0:
 		return "env:" + opaque
 	case 1:
@@ -575,6 +582,8 @@ func vWildTable(r *vRand, c *vCfg, st map[string]int) {
 	c.put("env:P", &vEntry{raw: "A"})
 	c.put("env:ERR", &vEntry{err: true})
 	c.put("env:EMP", &vEntry{raw: ""})
+	c.put("env:W", &vEntry{raw: 7, str: "7$$", hasStr: true})
+	c.put("env:LW", vYAML("[a$$b, 2]"))
 	c.put("env:A$", &vEntry{raw: "never"})
 	c.put("file:A", &vEntry{raw: "fa"})
 	c.put("file:N", vYAML("7"))
@@ -639,7 +648,13 @@ func vMergeOracle(dst map[string]any, src map[string]any) {
 	}
 }
 
-func vPlain(r *vRand) string { return vGenLit(r, 1+r.Intn(3), false) }
+func vPlain(r *vRand) string {
+	s := vGenLit(r, 1+r.Intn(3), false)
+	if r.Intn(4) == 0 {
+		s += "," + vGenLit(r, r.Intn(3), false)
+	}
+	return s
+}
 
 func vHasDollar(v any) bool {
 	switch x := v.(type) {
@@ -719,51 +734,52 @@ func TestVerifC12(t *testing.T) {
 
 	// -- fixed corpus: the strings of the reading-time probe, the two repaired defects, limits
 	{
+		corpus := []struct{ in, want string }{
+			{"${env:A} $${env:A}", "va ${env:A}"}, {"$${env:A} ${env:B}", "${env:A} vb"}, {"${env:A}-$$-${env:B}", "va-$-vb"},
+			{"$$${env:A}", "$va"}, {"$$$${env:A}", "$${env:A}"}, {"${env:N}", "\x00"}, {"x${env:N}", "x42"}, {"${env:R}", "va"},
+			{"${env:E}", "$x"}, {"${env:E}${env:A}", "$xva"}, {"${A}", "\x00"}, {"$A", "$A"}, {"${env:${env:A}}", "\x00"},
+			{"${env:D}{env:A}", "\x00"}, {"$", "$"}, {"$$", "$"}, {"$$$", "$$"}, {"${env:A", "${env:A"}, {"}${env:A}", "}va"},
+			{"${env:EMP}${env:N}", "\x00"}, {"$${env:A}$${env:A}${env:A}$$${env:A}", "${env:A}${env:A}va$va"},
+			{"a}$${env:B}}${env:B}", "a}${env:B}}vb"},
+		}
 		for _, def := range []string{"env", ""} {
-			c := vNewCfg(def, "env")
-			c.put("env:A", &vEntry{raw: "va"})
-			c.put("env:B", &vEntry{raw: "vb"})
-			c.put("env:N", vYAML("42"))
-			c.put("env:R", &vEntry{raw: "${env:A}"})
-			c.put("env:E", &vEntry{raw: "$$x"})
-			c.put("env:D", &vEntry{raw: "a$b"})
-			c.put("env:EMP", &vEntry{raw: ""})
-			m := map[string]any{}
-			exp := map[string]string{}
-			for i, s := range []string{"${env:A} $${env:A}", "$${env:A} ${env:B}", "${env:A}-$$-${env:B}", "$$${env:A}",
-				"$$$${env:A}", "${env:N}", "x${env:N}", "${env:R}", "${env:E}", "${env:E}${env:A}", "${A}", "$A",
-				"${env:${env:A}}", "${env:D}{env:A}", "$", "$$", "$$$", "${env:A", "}${env:A}", "${env:EMP}${env:N}"} {
-				m["k"+strconv.Itoa(i)] = s
-			}
-			exp["k0"], exp["k1"], exp["k2"], exp["k3"], exp["k4"] = "va ${env:A}", "${env:A} vb", "va-$-vb", "$va", "$${env:A}"
-			srcs := []any{m}
-			c.setSources(srcs)
-			o := vObserve(c, 1)
-			term := vCaseTerm(c, srcs, o)
-			if hung(term, o) {
-				return
-			}
-			emit(true, term)
-			st["corpus"]++
-			if o.errCode == -1 {
-				for k, want := range exp {
-					if got, _ := o.tsm[k].(string); got != want {
-						out.Oracle("token-interpreter", term, fmt.Sprintf("corpus key %s: resolved %q, reference interpreter %q", k, o.tsm[k], want))
+			for _, cs := range corpus {
+				c := vNewCfg(def, "env")
+				c.put("env:A", &vEntry{raw: "va"})
+				c.put("env:B", &vEntry{raw: "vb"})
+				c.put("env:N", vYAML("42"))
+				c.put("env:R", &vEntry{raw: "${env:A}"})
+				c.put("env:E", &vEntry{raw: "$$x"})
+				c.put("env:D", &vEntry{raw: "a$b"})
+				c.put("env:EMP", &vEntry{raw: ""})
+				srcs := []any{map[string]any{"k": cs.in}}
+				c.setSources(srcs)
+				o := vObserve(c, 1)
+				term := vCaseTerm(c, srcs, o)
+				if hung(term, o) {
+					return
+				}
+				emit(true, term)
+				st["corpus"]++
+				if cs.want != "\x00" {
+					if got, ok := o.tsm["k"].(string); o.errCode != -1 || !ok || got != cs.want {
+						out.Oracle("token-interpreter", term, fmt.Sprintf("corpus %q: resolved %#v (class %d), reference interpreter %q", cs.in, o.tsm["k"], o.errCode, cs.want))
 					}
 				}
 			}
 		}
-		// 999 distinct references in one value resolve, 1000 are refused (one reference per round, 1000 rounds)
-		for _, n := range []int{999, 1000} {
+		// 150 / 999 distinct references in one value resolve, 1000 are refused (one reference per round, 1000 rounds)
+		for _, n := range []int{150, 999, 1000} {
 			if vTier() == "quick" && n == 999 {
 				continue
 			}
 			c := vNewCfg("env", "env")
 			var sb strings.Builder
 			for i := 0; i < n; i++ {
-				nm := fmt.Sprintf("V%d", i)
+				const al = "abcdefghijklmnopqrstuvwxyzABCDEF"
+				nm := string([]byte{al[i%32], al[i/32]}) // two letters, default scheme: 5 characters per reference
 				c.put("env:"+nm, &vEntry{raw: "w"})
-				sb.WriteString("${env:" + nm + "}")
+				sb.WriteString("${" + nm + "}")
 			}
 			srcs := []any{map[string]any{"k": "x" + sb.String()}}
 			c.setSources(srcs)
@@ -774,6 +790,10 @@ func TestVerifC12(t *testing.T) {
 			}
 			emit(true, term)
 			st["corpus-many-refs"]++
+			want := "x" + strings.Repeat("w", n)
+			if got, _ := o.tsm["k"].(string); o.errCode != -1 || got != want {
+				out.Oracle("expansion-limit", term, fmt.Sprintf("%d distinct references in one value (all resolvable, no cycle): Resolve returned class %d instead of the expanded text", n, o.errCode))
+			}
 		}
 	}
 
@@ -799,7 +819,7 @@ func TestVerifC12(t *testing.T) {
 			if hasText {
 				want[key] = sem
 			} else {
-				st["tok-no-text(oracle skipped)"]++
+				st["tok-not-anchored(oracle skipped)"]++
 			}
 			nref := 0
 			for _, tk := range ts {
@@ -845,13 +865,33 @@ func TestVerifC12(t *testing.T) {
 		c := vNewCfg(def, "env", "file")
 		vWildTable(r, c, st)
 		m := map[string]any{}
+		typed := map[string]*vEntry{}
 		nk := 1 + r.Intn(3)
 		for k := 0; k < nk; k++ {
 			key := "k" + strconv.Itoa(k)
-			if r.Intn(4) == 0 {
+			switch r.Pick(25, 60, 15) {
+			case 0:
 				m[key] = vGenValue(r, c, 0, st, func() string { return vGenWild(r, c, 3, st) })
-			} else {
+			case 1:
 				m[key] = vGenWild(r, c, 3, st)
+			case 2: // the whole value is one reference (typed value + original text)
+				all := c.order[:len(c.order)-0]
+				nm := all[r.Intn(len(all))]
+				if strings.HasPrefix(nm, "env:") && def != "" && r.Bool() {
+					nm = nm[4:]
+				}
+				m[key] = "${" + nm + "}"
+				st["whole-value-ref"]++
+				full := nm
+				if !strings.Contains(full, ":") {
+					full = def + ":" + full
+				}
+				if e := c.tbl[full]; e != nil && !e.err && e.hasStr && !strings.Contains(e.str, "${") && !strings.HasPrefix(full, "src:") {
+					switch e.raw.(type) {
+					case nil, bool, int, float64:
+						typed[key] = e
+					}
+				}
 			}
 		}
 		srcs := []any{m}
@@ -864,6 +904,24 @@ func TestVerifC12(t *testing.T) {
 		emit(true, term)
 		st["wild-cases"]++
 		st[fmt.Sprintf("wild-result-class-%d", o.errCode)]++
+		// direct oracle: a value that IS one reference to a typed scalar: typed in ToStringMap, its original
+		// text (with $$ un-escaped) in a string field
+		if o.errCode == -1 {
+			for k, e := range typed {
+				st["wild-typed-oracle"]++
+				wantS := strings.ReplaceAll(e.str, "$$", "$")
+				if !reflect.DeepEqual(o.tsm[k], e.raw) {
+					out.Oracle("whole-value-typed", term, fmt.Sprintf("key %s = %q: ToStringMap gives %#v, the provider's typed value is %#v", k, m[k], o.tsm[k], e.raw))
+				}
+				if sp := o.strs[k]; sp == nil || *sp != wantS {
+					got := "<decode error>"
+					if sp != nil {
+						got = *sp
+					}
+					out.Oracle("whole-value-typed", term, fmt.Sprintf("key %s = %q: a string field receives %q, the provider's text is %q", k, m[k], got, wantS))
+				}
+			}
+		}
 		// weak direct oracle: a string without "$" is never changed
 		if o.errCode == -1 {
 			for k, v := range m {
